@@ -12,6 +12,7 @@ The oracle (verif.oracles.c07_same) is differential: node set, edges, configurat
 parsed data references (producer, file, method, resolved targets and paths), environments, loop documents/state.
 """
 import contextlib
+import hashlib
 import os
 import sys
 
@@ -36,16 +37,20 @@ RULE = ('Packages: {platform default | P; the document defines both, P overrides
         'environments, blueprint (global+stage) and a component override section} x {no | one | two layered user '
         'variable files with global and stage scoped variables (one of them changes the replica count) [thorough: + the '
         'two files in reverse order, + a legacy .conf file]} x {plain | replicated + aggregated} x {no loop | DoWhile '
-        'document imported at stage 1 [thorough: + a two-stage DoWhile]} (+ for P x DoWhile a variant where the P-global '
-        'and the default-stage blueprint define the same option). Every package also carries YAML-fragile literal values '
-        '(010, yes, 1e3, 12:30:00, null, ~, "a: b", leading blank, unicode, typed int/float/bool), direct references '
-        '(data/, input/), a key output and status-report entries. Histories: ALL words of length <=3 over {I = '
-        'instantiate_dowhile_next_iteration(store=True) (DoWhile packages), Pa = setOptionForNode(plain node, '
-        '#command.arguments)+store_unreplicated_flowir_to_disk, Pv = setOptionForNode(replica/aggregate/latest loop '
-        'instance, variable s)+store [thorough: + Pe = setOptionForNode(sink, #command.executable)+store]}; every prefix '
-        'is a state and is judged exactly once: 1 load without update + 3 load-and-store cycles (+1 load under '
-        'platform=None for P instances, + continuation for DoWhile packages). A case = (package, history prefix, kind of '
-        'reload); all cases are non-trivial (>=5 components, >=2 platforms in the document); distinct = distinct case.')
+        'document imported at stage 1 [thorough: + a two-stage DoWhile]} (+ for P x DoWhile x {no, two} user files a '
+        'variant where the P-global and the default-stage blueprint define the same option): 28 packages quick, 68 '
+        'thorough. Every package also carries YAML-fragile literal values (010, yes, 1e3, 0x1F, 12:30:00, null, ~, '
+        '"a: b", leading blank, unicode, typed int/float/bool/big int), direct references (data/, input/), a key output '
+        'and status-report entries. Histories: ALL words of length <=3 over the mutators I = '
+        'instantiate_dowhile_next_iteration(store=True), Pa = setOptionForNode(plain node, #command.arguments) + '
+        'store_unreplicated_flowir_to_disk, Pv = setOptionForNode(replica / aggregate / latest loop instance, variable '
+        's) + store, Pe = setOptionForNode(sink, #command.executable) + store; alphabet quick: DoWhile packages {I,Pv}, '
+        'others {Pa,Pv}; thorough: DoWhile packages {I,Pa,Pv}, others {Pa,Pv,Pe}. Every prefix of every word is a state '
+        'and is judged exactly once (in the run of its lexicographically first extension): 1 load without update, 1 '
+        'load+store cycle (3 cycles for prefixes of length <=1 quick / <=2 thorough), for P instances 1 load under '
+        'platform=None, for DoWhile packages the continuation step; after every load/store the stored files are compared. '
+        'A case = (package, history prefix, kind of reload); all cases are non-trivial (>=5 components, two platforms, '
+        'layered values); distinct = distinct case.')
 ASSUMPTIONS = [
     'the writing experiment is observed in memory at the moment of the comparison; the reloaded one through the same '
     'public queries (graph nodes/edges, configurationForNode(raw=False), ComponentSpecification data references, '
@@ -362,7 +367,7 @@ def check_state(col, spec, prefix, exp, inst, pending, want_continuation, thorou
     a continuation is wanted, else None."""
     case = {'pkg': spec, 'history': list(prefix)}
     mem = O.normalise(observe(exp), 'same')
-    col.state(canon([spec, mem]))
+    col.state(hashlib.sha1(canon([spec, mem]).replace(os.path.dirname(inst), '<ROOT>').encode()).hexdigest())
     platform = spec['platform']
     files0 = read_stored(inst)
     if set(files0) != set(STORED):
